@@ -1,0 +1,12 @@
+//go:build verif
+// +build verif
+
+package codec
+
+// Verification hooks (build tag verif only): read-only views, no behaviour changes.
+
+// VerifRemaining returns the number of unread bytes of the reader.
+func (b *Reader) VerifRemaining() int { return b.buf.Len() }
+
+// VerifMaxSkipDepth returns the nesting limit of skipField.
+func VerifMaxSkipDepth() int { return maxSkipDepth }
